@@ -91,7 +91,10 @@ pub fn rand_edrv(r: &mut Rng, pmax: f64) -> ElectricDrivetrain {
 }
 pub fn rand_res(r: &mut Rng) -> ReversibleEnergyStorage {
     let pmax = r.lrange(2e5, 6e6);
-    let cap = pmax * r.lrange(600.0, 4.0 * 3600.0);
+    // one pack in five is power-dense (drained in 3-15 minutes at full power) and starts within 2 % of an edge of its SOC
+    // window: a coarse step at the published (derated) limit then carries the SOC over the edge
+    let dense = r.chance(0.2);
+    let cap = pmax * if dense { r.lrange(200.0, 900.0) } else { r.lrange(600.0, 4.0 * 3600.0) };
     let nt = 1 + r.below(3);
     let ns = 2 + r.below(4);
     let nc = 2 + r.below(5);
@@ -117,7 +120,7 @@ pub fn rand_res(r: &mut Rng) -> ReversibleEnergyStorage {
         "save_interval": null,
     });
     let mut res: ReversibleEnergyStorage = serde_json::from_value(v).expect("res");
-    res.state.soc = uc::R * r.range(min_soc, max_soc);
+    res.state.soc = uc::R * if dense { if r.chance(0.5) { max_soc - r.range(0.0, 0.02) } else { min_soc + r.range(0.0, 0.02) } } else { r.range(min_soc, max_soc) };
     res.state.temperature_celsius = r.range(15.0, 60.0);
     res
 }
@@ -341,6 +344,8 @@ pub fn err_code(e: &anyhow::Error) -> (i64, String) {
 // ---------------------------------------------------------------- locomotive traces
 /// One lock-step record of `LocomotiveSimulation::step`.
 pub struct LocoStep {
+    /// the object as a REJECTED call left it (None after an accepted step)
+    pub after_err: Option<Locomotive>,
     pub pre: Locomotive,
     pub pwr: f64,
     pub dt: f64,
@@ -374,7 +379,13 @@ pub fn loco_trace(r: &mut Rng, loco: Locomotive, n: usize, allow_off: bool) -> V
     let mut sim = LocomotiveSimulation::new(loco, PowerTrace::new(vec![0.0], vec![0.0], vec![Some(true)]), None);
     let mut out = Vec::new();
     let mut t = 0.0f64;
-    let long_dt = r.chance(0.2);
+    // a battery unit that starts within 3 % of an edge of its SOC window mostly takes coarse steps at the published limit
+    // TOWARDS that edge: such an accepted step carries the SOC over the edge (there is no clamp in the code)
+    let edge: i8 = match &sim.loco_unit.loco_type {
+        PowertrainType::BatteryElectricLoco(b) => { let (s0, mn, mx) = (b.res.state.soc.value, b.res.min_soc.value, b.res.max_soc.value);
+            if mx - s0 < 0.03 { 1 } else if s0 - mn < 0.03 { -1 } else { 0 } }
+        _ => 0 };
+    let long_dt = r.chance(if edge != 0 { 0.7 } else { 0.2 });
     for _ in 0..n {
         let dt = if long_dt { r.range(5.0, 60.0) } else { *r.pick(&[1.0, 1.0, 0.5, 0.1, 2.0, 10.0]) * if r.chance(0.3) { r.range(0.5, 1.5) } else { 1.0 } };
         let on = !(allow_off && is_conv && r.chance(0.2));
@@ -384,7 +395,7 @@ pub fn loco_trace(r: &mut Rng, loco: Locomotive, n: usize, allow_off: bool) -> V
         let (mode, pwr): (&'static str, f64) = if !on {
             if r.chance(0.8) { ("off_zero", 0.0) } else { ("off_nonzero", pmax.max(1e3) * r.range(0.01, 0.5)) }
         } else {
-            match r.below(12) {
+            match if edge != 0 && r.chance(0.5) { if edge > 0 { 9 } else { 4 } } else { r.below(12) } {
                 0 => ("zero", 0.0),
                 1 | 2 | 3 => ("frac_max", pmax * r.range(0.02, 0.98)),
                 4 => ("at_max", pmax),
@@ -411,7 +422,7 @@ pub fn loco_trace(r: &mut Rng, loco: Locomotive, n: usize, allow_off: bool) -> V
             Err(p) => Err((-1, p)),
         };
         let failed = post.is_err();
-        out.push(LocoStep { pre: pre.clone(), pwr, dt: real_dt, engine_on: on, post, mode });
+        out.push(LocoStep { after_err: if failed { Some(sim.loco_unit.clone()) } else { None }, pre: pre.clone(), pwr, dt: real_dt, engine_on: on, post, mode });
         if failed {
             // discard the rejected trace element and restore the pre-state
             sim.loco_unit = pre;
